@@ -117,7 +117,8 @@ var checkC14Cells = func(c *Check) {
 				}
 			}
 			// explicit casts between two different definitions of one base are not allowed either
-			if a.Kind == "TYPEDEF" && b.Kind == "TYPEDEF" && a.Name != b.Name {
+			// (a definition whose base is itself a definition converts to and from that base: those pairs are excluded)
+			if a.Kind == "TYPEDEF" && b.Kind == "TYPEDEF" && a.Name != b.Name && !dtEqual(a.Base, b) && !dtEqual(b.Base, a) {
 				k := cellKey("CAST to "+a.String(), b)
 				if verdict[k] == "admit" {
 					r8.Bad("cast between definitions", token.NoPos, k+" is admitted: a type definition converts to another definition, not only to and from its own base")
